@@ -1,12 +1,16 @@
 /-
   C08 — a function call depends only on its arguments, never on earlier calls.
-  Property theorems only. Model: `callFunc` (Model/Interp.lean), transcription of
-  FunctorExpression::value + FunctorManager::createEnv after the repair that resets recycled contexts.
+  Property theorems only (helpers: Proofs/Lemmas/Interp.lean, Vars.lean). Model: `callFunc` / `evalArgs` /
+  `calleeInit` / `finishCall` / `addFunc` (Model/Interp.lean), transcription of FunctorExpression::value +
+  FunctorManager::createEnv / createOrReplace after the repair that resets recycled contexts.
+  Clause table: notes/NOTES-p0608.md.
 -/
 import BlocV.Model.Interp
+import BlocV.Proofs.Lemmas.Interp
+import BlocV.Proofs.Lemmas.Vars
 
 namespace BlocV.C08
-open BlocV
+open BlocV BlocV.Lemmas
 
 /-- The 256th nested call (the caller already runs at recursion depth 255) raises the recursion-limit
 error: no argument is evaluated, no body runs, the caller's state is untouched. -/
@@ -50,5 +54,180 @@ theorem failing_argument_fails_call (funcs : List Func) (depth fuel : Nat) (name
     (ha : evalArgs funcs depth fuel args s = (.err c a, s1)) :
     callFunc funcs depth (fuel + 1) name args s = (.err c a, s1) := by
   simp [callFunc, hf, hd, bind, ha]
+
+
+
+/-- The callee's start state is a function of the function, the argument values, and the caller's output stream and work
+budget — of nothing else of the caller (no variable, no saved return value, no running loop). -/
+theorem calleeInit_congr (f : Func) (vals : List Val) (c1 c2 : St) (ho : c1.out = c2.out) (hb : c1.budget = c2.budget) :
+    calleeInit f vals c1 = calleeInit f vals c2 := by
+  simp [calleeInit, ho, hb]
+
+/-- **The callee cannot read the caller's variables; the result depends on the caller only through output and budget.**
+Full `callFunc`, argument evaluation included: two calls of the same function name from two ARBITRARY caller states (different
+variables, different loops running, different saved return values, any earlier calls behind them) whose argument expressions
+evaluate to the same values, with the same printed output and remaining budget, have the same outcome (value, or error, or
+hazard), print the same, and use the same budget. -/
+theorem call_independent_of_caller (funcs : List Func) (depth fuel : Nat) (name : String) (args args' : List Expr)
+    (c c1 c' c1' : St) (f : Func) (vals : List Val)
+    (hf : funcs.find? (fun f => f.name == name && f.params.length == args.length) = some f)
+    (hlen : args'.length = args.length) (hd : (depth == Gen.RECURSION_LIMIT) = false)
+    (ha : evalArgs funcs depth fuel args c = (.ok vals, c1))
+    (ha' : evalArgs funcs depth fuel args' c' = (.ok vals, c1'))
+    (ho : c1.out = c1'.out) (hb : c1.budget = c1'.budget) :
+    (callFunc funcs depth (fuel + 1) name args c).1 = (callFunc funcs depth (fuel + 1) name args' c').1 ∧
+    (callFunc funcs depth (fuel + 1) name args c).2.out = (callFunc funcs depth (fuel + 1) name args' c').2.out ∧
+    (callFunc funcs depth (fuel + 1) name args c).2.budget = (callFunc funcs depth (fuel + 1) name args' c').2.budget := by
+  have hf' : funcs.find? (fun f => f.name == name && f.params.length == args'.length) = some f := by rw [hlen]; exact hf
+  have hd' := hd
+  rw [callFunc_unfold funcs depth fuel name args c c1 f vals hf hd' ha,
+      callFunc_unfold funcs depth fuel name args' c' c1' f vals hf' hd' ha',
+      calleeInit_congr f vals c1 c1' ho hb]
+  generalize execBlock funcs (depth + 1) fuel f.body f.catches (calleeInit f vals c1') = r
+  unfold finishCall
+  cases r.1 <;> exact ⟨rfl, rfl, rfl⟩
+
+/-- Literal arguments evaluate to their values and leave the state alone (fuel above their number). -/
+theorem evalArgs_lits (funcs : List Func) (depth : Nat) : ∀ (vals : List Val) (fuel : Nat) (s : St), vals.length < fuel →
+    evalArgs funcs depth fuel (vals.map Expr.lit) s = (.ok vals, s) := by
+  intro vals
+  induction vals with
+  | nil => intro fuel s h; cases fuel with
+    | zero => omega
+    | succ k => simp only [List.map_nil, evalArgs, pure_app]
+  | cons v vs ih =>
+    intro fuel s h
+    cases fuel with
+    | zero => omega
+    | succ k =>
+      cases k with
+      | zero => simp at h
+      | succ k' =>
+        have := ih (k' + 1) s (by simp at h; omega)
+        simp only [List.map_cons, evalArgs, bind_app, eval_lit, this, pure_app]
+
+/-- **A call is a function of its argument values**: called with the same argument values (here: literals) from two arbitrary
+caller states that agree on printed output and remaining budget, a function returns the same, prints the same and costs the same —
+whatever the callers' variables are and whatever was called before (the model has no per-function cache: `funcs` is immutable, and
+every call builds its context afresh with `calleeInit`; this is the repaired `createEnv`). -/
+theorem call_determined_by_argument_values (funcs : List Func) (depth fuel : Nat) (name : String) (vals : List Val)
+    (c c' : St) (f : Func)
+    (hf : funcs.find? (fun f => f.name == name && f.params.length == vals.length) = some f)
+    (hd : (depth == Gen.RECURSION_LIMIT) = false) (hfuel : vals.length < fuel)
+    (ho : c.out = c'.out) (hb : c.budget = c'.budget) :
+    (callFunc funcs depth (fuel + 1) name (vals.map Expr.lit) c).1 = (callFunc funcs depth (fuel + 1) name (vals.map Expr.lit) c').1 ∧
+    (callFunc funcs depth (fuel + 1) name (vals.map Expr.lit) c).2.out = (callFunc funcs depth (fuel + 1) name (vals.map Expr.lit) c').2.out ∧
+    (callFunc funcs depth (fuel + 1) name (vals.map Expr.lit) c).2.budget = (callFunc funcs depth (fuel + 1) name (vals.map Expr.lit) c').2.budget :=
+  call_independent_of_caller funcs depth fuel name _ _ c c c' c' f vals (by simpa using hf) rfl hd
+    (evalArgs_lits funcs depth vals fuel c hfuel) (evalArgs_lits funcs depth vals fuel c' hfuel) ho hb
+
+/-- **The callee cannot modify the caller's variables**: after ANY call (any function, any arguments, any outcome incl. errors) the
+caller's variables, saved return value and running loops are exactly what the argument evaluation left; if the arguments are literals,
+exactly what they were before the call. -/
+theorem callee_cannot_modify_caller (funcs : List Func) (depth fuel : Nat) (name : String) (vals : List Val) (c : St)
+    (hfuel : vals.length < fuel) :
+    (callFunc funcs depth (fuel + 1) name (vals.map Expr.lit) c).2.vars = c.vars ∧
+    (callFunc funcs depth (fuel + 1) name (vals.map Expr.lit) c).2.returned = c.returned ∧
+    (callFunc funcs depth (fuel + 1) name (vals.map Expr.lit) c).2.iters = c.iters := by
+  cases hfind : funcs.find? (fun f => f.name == name && f.params.length == (vals.map Expr.lit).length) with
+  | none => simp only [callFunc, hfind]; exact ⟨rfl, rfl, rfl⟩
+  | some f =>
+    by_cases hd : (depth == Gen.RECURSION_LIMIT) = true
+    · simp only [callFunc, hfind, hd, if_true]; exact ⟨rfl, rfl, rfl⟩
+    · have hd' : (depth == Gen.RECURSION_LIMIT) = false := by simpa using hd
+      rw [callFunc_unfold funcs depth fuel name _ c c f vals hfind hd' (evalArgs_lits funcs depth vals fuel c hfuel)]
+      generalize execBlock funcs (depth + 1) fuel _ _ _ = r
+      unfold finishCall
+      cases r.1 <;> exact ⟨rfl, rfl, rfl⟩
+
+/-- **Overloads are selected by name and argument count**: the function a call runs has the called name and as many parameters as
+the call has arguments (`FunctorManager::findDeclaration`); it is the first such entry of the function table. -/
+theorem overload_by_arity (funcs : List Func) (name : String) (args : List Expr) (f : Func)
+    (hf : funcs.find? (fun f => f.name == name && f.params.length == args.length) = some f) :
+    f.name = name ∧ f.params.length = args.length ∧ f ∈ funcs := by
+  have h1 := List.find?_some hf
+  have h2 := List.mem_of_find?_eq_some hf
+  simp only [Bool.and_eq_true, beq_iff_eq] at h1
+  exact ⟨h1.1, h1.2, h2⟩
+
+/-- Two declarations of one name with different parameter counts coexist (`addFunc` replaces only same name + same arity). -/
+theorem overloads_coexist (fs : List Func) (f g : Func) (hg : g ∈ fs) (hne : sameSig f g = false) : g ∈ addFunc fs f := by
+  unfold addFunc
+  split
+  · simp only [List.mem_map]
+    exact ⟨g, hg, by simp [hne]⟩
+  · simp [hg]
+
+
+/-- **Local variables start every call unset**: in the context a call starts in, every symbol that is not a parameter holds a
+null (the typed null of its declaration, `createChildRuntime`; an untyped null when the function never declares it) — whatever
+the caller holds under the same name and whatever any earlier call of the same function left behind. -/
+theorem locals_start_unset (f : Func) (vals : List Val) (caller : St) (n : String) (hn : n ∉ f.params.map (·.1)) :
+    lookupVar (calleeInit f vals caller).vars n = lookupVar (f.decls.map fun (p : String × Ty) => (p.1, Val.null p.2)) n ∧
+    (lookupVar (calleeInit f vals caller).vars n).isNull = true := by
+  have hn' : n ∉ (((f.params.map (·.1)).zip vals).map (·.1)) := by
+    intro h
+    apply hn
+    simp only [List.mem_map] at h ⊢
+    obtain ⟨⟨a, b⟩, hab, rfl⟩ := h
+    have := (List.of_mem_zip hab).1
+    simp only [List.mem_map] at this
+    exact this
+  have e : lookupVar (calleeInit f vals caller).vars n = lookupVar (f.decls.map fun (p : String × Ty) => (p.1, Val.null p.2)) n := by
+    unfold calleeInit
+    exact lookup_bind_other _ n hn' _
+  exact ⟨e, by rw [e]; exact lookup_nulls_isNull f.decls n⟩
+
+/-- **Arguments are received by copy** (single parameter shown; values are immutable in the model, so a copy is the value itself):
+the parameter holds the argument value in the callee; whatever the callee then does to it, the caller's variables are untouched
+(`caller_untouched`, `callee_cannot_modify_caller`). -/
+theorem argument_bound_by_value (f : Func) (p : String) (t : Ty) (v : Val) (caller : St) (hp : f.params = [(p, t)]) :
+    lookupVar (calleeInit f [v] caller).vars p = v := by
+  unfold calleeInit
+  rw [hp]
+  simp only [List.map_cons, List.map_nil, List.zip_cons_cons, List.zip_nil_right, List.foldl_cons, List.foldl_nil]
+  exact lookup_setVar _ _ _
+
+
+/-- `function g(n) begin if n == 0 then return 0; end if; return g(n-1); end` -/
+def gFunc : Func :=
+  { name := "g", params := [("n", Ty.int)], ret := Ty.int,
+    body := [.ifS [(some (.bin .eq (.var "n") (.lit (.int 0))), [.returnS (some (.lit (.int 0)))])],
+             .returnS (some (.fcall "g" [.bin .sub (.var "n") (.lit (.int 1))]))],
+    catches := [], decls := [("n", Ty.int)] }
+
+/-- **255 nested calls run, the 256th raises RECURSION_LIMIT** (evaluated on the model, from the program level = depth 0):
+`g(254)` makes 255 nested calls and returns 0; `g(255)` attempts a 256th and fails with the recursion-limit error — a BLOC
+runtime error, not a crash, and the caller's state is an ordinary state afterwards. -/
+theorem recursion_limit_exact :
+    (match (eval [gFunc] 0 2000 (.fcall "g" [.lit (.int 254)]) {}).1 with | .ok (.int i) => i == 0 | _ => false) = true ∧
+    (match (eval [gFunc] 0 2000 (.fcall "g" [.lit (.int 255)]) {}).1 with
+      | .err c a => c == Gen.EXC_RT_RECURSION_LIMIT && a == [] | _ => false) = true := by
+  constructor <;> decide +kernel
+
+
+/-- `function f(b) begin if b then x = 1; end if; return x; end` — the witness of the stale-local defect of the pinned build -/
+def fStale : Func :=
+  { name := "f", params := [("b", Ty.bool)], ret := Ty.int,
+    body := [.ifS [(some (.var "b"), [.letS "x" (.lit (.int 1))])], .returnS (some (.var "x"))],
+    catches := [], decls := [("b", Ty.bool), ("x", Ty.int)] }
+
+/-- history independence on the witness: `print f(true); print f(false); print f(false);` prints 1, null, null — the local `x`
+assigned by the first call is unset again in the later ones, and the caller's own `x` is neither read nor changed -/
+example : (let r := execList [fStale] 0 40 [.letS "x" (.lit (.int 7)), .printS [.fcall "f" [.lit (.bool true)]], .printS [.fcall "f" [.lit (.bool false)]],
+      .printS [.fcall "f" [.lit (.bool false)]], .printS [.var "x"]] {}
+    (r.1, r.2.out)) = (.ok .norm, [[10], [55], [10], [110, 117, 108, 108], [10], [110, 117, 108, 108], [10], [49]]) := by decide +kernel
+
+/-- overloads by argument count: `h(a)` and `h(a, b)` coexist and the call picks by arity -/
+example : (let h1 : Func := { name := "h", params := [("a", Ty.int)], ret := Ty.int, body := [.returnS (some (.lit (.int 1)))], catches := [] }
+    let h2 : Func := { name := "h", params := [("a", Ty.int), ("b", Ty.int)], ret := Ty.int, body := [.returnS (some (.lit (.int 2)))], catches := [] }
+    let r := execList (addFunc (addFunc [] h1) h2) 0 40 [.printS [.fcall "h" [.lit (.int 0), .lit (.int 0)]], .printS [.fcall "h" [.lit (.int 0)]]] {}
+    (r.1, r.2.out)) = (.ok .norm, [[10], [49], [10], [50]]) := by decide +kernel
+
+/-- the hypotheses of `call_determined_by_argument_values` are satisfiable: two callers with different variables -/
+example : (callFunc [fStale] 0 20 "f" [.lit (.bool true)] { vars := [("x", .int 5)] }).1 =
+    (callFunc [fStale] 0 20 "f" [.lit (.bool true)] { vars := [("b", .str [1]), ("q", .int 9)], returned := some (.int 3) }).1 :=
+  (call_determined_by_argument_values [fStale] 0 19 "f" [.bool true] { vars := [("x", .int 5)] }
+    { vars := [("b", .str [1]), ("q", .int 9)], returned := some (.int 3) } fStale (by with_unfolding_all rfl) (by decide) (by decide) rfl rfl).1
 
 end BlocV.C08
